@@ -81,6 +81,7 @@ fn main() {
                     twin_start: false,
                     base_calls: base,
                     readat: if family == "hist" { 12 } else { 0 },
+                    reload_before_readat: false,
                     steps: 10 + srng.below(10),
                     max_reps: 3,
                     max_changes: 12,
@@ -94,6 +95,18 @@ fn main() {
                 } else {
                     scen::graph_scenario(i, &mut srng, &o, family)
                 }
+            }
+            "store" | "storeflip" => {
+                let mut prof = Profile::all();
+                prof.max_len = 6;
+                let o = amverif::store::StoreOpts {
+                    crash: family == "store",
+                    feed: family == "store",
+                    flips: if family == "storeflip" { args.get(5).and_then(|s| s.parse().ok()).unwrap_or(2000) } else { 0 },
+                    enc: automerge::TextEncoding::UnicodeCodePoint,
+                    prof,
+                };
+                amverif::store::store_scenario(i, &mut srng, &o, family)
             }
             "seq" => {
                 use serde_json::json;
@@ -115,6 +128,7 @@ fn main() {
                     twin_start: false,
                     base_calls: base,
                     readat: if family == "hist" { 12 } else { 0 },
+                    reload_before_readat: false,
                     steps: 8 + srng.below(8),
                     max_reps: 3,
                     max_changes: 12,
@@ -125,7 +139,7 @@ fn main() {
                 };
                 scen::graph_scenario(i, &mut srng, &o, family)
             }
-            "doc" | "doctext" | "docinv" | "histdoc" => {
+            "doc" | "doctext" | "docinv" | "histdoc" | "reload" => {
                 let text = family == "doctext";
                 let mut prof = Profile::all();
                 if family == "docinv" {
@@ -144,10 +158,11 @@ fn main() {
                     automerge::TextEncoding::UnicodeCodePoint
                 };
                 let o = scen::GraphOpts {
-                    weights: scen::W_DOC,
+                    weights: if family == "reload" { scen::W_RELOAD } else { scen::W_DOC },
                     twin_start: false,
                     base_calls: vec![],
-                    readat: if family == "histdoc" { 10 } else { 0 },
+                    readat: if family == "histdoc" { 10 } else if family == "reload" { 6 } else { 0 },
+                    reload_before_readat: family == "reload",
                     steps: 8 + srng.below(10),
                     max_reps: 3,
                     max_changes: 10,
@@ -165,6 +180,7 @@ fn main() {
                     twin_start: dup,
                     base_calls: vec![],
                     readat: 0,
+                    reload_before_readat: false,
                     steps: 10 + srng.below(14),
                     max_reps: 4,
                     max_changes: 14,
@@ -209,6 +225,7 @@ fn dag_main(args: &[String]) {
             twin_start: dup,
                     base_calls: vec![],
                     readat: 0,
+                    reload_before_readat: false,
             steps: 8 + srng.below(10),
             max_reps: 3,
             max_changes: maxc,
